@@ -274,8 +274,18 @@ def build(cfg, world, shared=None):
         source = CSVDailyBarDataSource(world.dir, None, adjust_prices=world.adjust)
         if shared is not None:
             shared['source'] = source
-    handler = BacktestDataHandler(universe, data_sources=[source])
+    if shared is not None and 'handler' in shared:
+        handler = shared['handler']            # the same data handler object serves several sessions
+    else:
+        handler = BacktestDataHandler(universe, data_sources=[source])
+        if shared is not None and shared.get('share_handler'):
+            shared['handler'] = handler
     al = cfg['alpha']
+    # signals may be built on their own universe (e.g. every candidate plus a reference asset, from the start),
+    # different from the universe that is traded and from the data handler's
+    sig_universe = universe
+    if al.get('signal_universe') == 'static_all':
+        sig_universe = StaticUniverse(['EQ:' + s_ for s_ in cfg['market']['assets']])
     signals = None
     sigs = {}
     if al['kind'] == 'fixed':
@@ -283,25 +293,30 @@ def build(cfg, world, shared=None):
     elif al['kind'] == 'single':
         alpha = SingleSignalAlphaModel(universe, signal=al.get('signal', 1.0))
     elif al['kind'] == 'topn_mom':
-        sigs['momentum'] = MomentumSignal(start, universe, lookbacks=[al['lookback']] + list(al.get('extra_lookbacks', [])))
+        sigs['momentum'] = MomentumSignal(start, sig_universe, lookbacks=[al['lookback']] + list(al.get('extra_lookbacks', [])))
         signals = SignalsCollection(sigs, handler)
         alpha = topn_class()(signals, al['lookback'], al['top'], universe, handler)
     elif al['kind'] == 'mom_sign':
-        sigs['momentum'] = MomentumSignal(start, universe, lookbacks=[al['lookback']])
+        sigs['momentum'] = MomentumSignal(start, sig_universe, lookbacks=[al['lookback']])
         signals = SignalsCollection(sigs, handler)
         alpha = MomSignAlpha(signals, al['lookback'], universe)
     elif al['kind'] == 'sma_trend':
-        sigs['sma'] = SMASignal(start, universe, lookbacks=[al['fast'], al['slow']])
+        sigs['sma'] = SMASignal(start, sig_universe, lookbacks=[al['fast'], al['slow']])
         signals = SignalsCollection(sigs, handler)
         alpha = SMATrendAlpha(signals, al['fast'], al['slow'], universe, short=not cfg['long_only'])
     elif al['kind'] == 'inv_vol':
-        sigs['vol'] = VolatilitySignal(start, universe, lookbacks=[al['lookback']])
+        sigs['vol'] = VolatilitySignal(start, sig_universe, lookbacks=[al['lookback']])
         if al.get('with_sma'):
-            sigs['sma'] = SMASignal(start, universe, lookbacks=[al['with_sma']])
+            sigs['sma'] = SMASignal(start, sig_universe, lookbacks=[al['with_sma']])
         signals = SignalsCollection(sigs, handler)
         alpha = InvVolAlpha(signals, al['lookback'], universe)
     else:
         raise ValueError(al['kind'])
+    if shared is not None and al['kind'] == 'fixed':
+        if 'alpha' in shared:
+            alpha = shared['alpha']              # the same alpha model object (and its weights dict) serves several runs
+        elif shared.get('share_alpha'):
+            shared['alpha'] = alpha
     fee = cfg['fee']
     fm = ZeroFeeModel() if fee[0] == 'zero' else PercentFeeModel(commission_pct=fee[1], tax_pct=fee[2])
     kw = {}
@@ -627,6 +642,8 @@ def check_c16_session(cfg, world, tr, acc):
     u = cfg['universe']
     entries = {a: None for a in u.get('assets', [])} if u['kind'] == 'static' else \
         {a: (refmodel.parse(d) if d else 'never') for a, d in u['dates'].items()}
+    if cfg['alpha'].get('signal_universe') == 'static_all':
+        entries = {'EQ:' + s_: None for s_ in cfg['market']['assets']}
     by = {}
     for now, sid, asset, price in tr.appends:
         by.setdefault((sid, asset), []).append((py(now), price))
@@ -730,14 +747,14 @@ SYMS = ['AAA', 'BBB', 'CCC', 'DDD', 'EEE', 'FFF', 'GGG', 'HHH']
 
 def gen_cfg(rng, alpha_kinds=('fixed',), universe_kinds=('static',), max_days=250, full_data=True,
             burn=True, rebalances=('daily', 'weekly', 'end_of_month', 'buy_and_hold'), n_assets=None, nan_cells=None,
-            expensive=False):
+            expensive=False, signal_universes=False):
     n = n_assets or rng.randint(1, 5)
     syms = SYMS[:n]
     assets = ['EQ:' + s for s in syms]
     reb = rng.choice(rebalances)
     d0 = dt.date(1998, 1, 1) + dt.timedelta(days=rng.randint(0, 11000))
     ndays = rng.choice([15, 30, 45, 70, 120, max_days]) if max_days > 45 else rng.randint(10, max_days)
-    start_tod = '14:30:00' if reb == 'buy_and_hold' else rng.choice(['00:00:00', '09:00:00', '14:30:00'])
+    start_tod = '14:30:00' if reb == 'buy_and_hold' else rng.choice(['00:00:00', '09:00:00', '14:30:00', '09:30:15', '09:30:00.250000', '14:29:59.999999'])
     d1 = d0 + dt.timedelta(days=int(ndays * 7 / 5))
     start = '%s %s+00:00' % (d0.isoformat(), start_tod)
     end = '%s 23:59:00+00:00' % d1.isoformat()
@@ -769,10 +786,18 @@ def gen_cfg(rng, alpha_kinds=('fixed',), universe_kinds=('static',), max_days=25
         # one or two assets priced at a sizeable fraction of the account: targets of 0, 1, 2 ... units, positions that
         # must be sold down to nothing when the allocation falls below one unit's price
         mk['level'] = {s_: cfg['cash'] * rng.choice([0.03, 0.1, 0.3, 0.6, 1.5]) / max(1, n) for s_ in rng.sample(syms, min(len(syms), rng.randint(1, 2)))}
+    if nan_cells == 'any' and rng.random() < 0.15:
+        # expensive shares whose adjusted close is quoted to cents while the close has four decimals: Adj Close is
+        # within 1e-5 of Close but not equal to it
+        mk['adj_round'] = 2
+        mk['adjust'] = True
+        mk['ratio'] = {s_: 1.0 for s_ in syms}
+        mk['level'] = {s_: rng.uniform(600, 3000) for s_ in syms}
     if nan_cells and rng.random() < 0.6:
         mk['nan_p'] = rng.choice([0.03, 0.1, 0.25])
         if nan_cells == 'any':
             mk['nan_leading'] = rng.random() < 0.6
+            mk['nan_adj_only'] = rng.random() < 0.5
             if rng.random() < 0.5:
                 mk['first'] = d0.isoformat()          # data begin on the very first session day
         else:
@@ -828,6 +853,14 @@ def gen_cfg(rng, alpha_kinds=('fixed',), universe_kinds=('static',), max_days=25
                 w[a] = -w[a]
         if not w:
             w[assets[0]] = 1.0
+        if rng.random() < 0.15 and any(x != 0 for x in w.values()):
+            # almost-normalised weights (truncated decimals) on a large account
+            target = 1.0 if cfg['long_only'] else cfg['leverage']
+            g = sum(abs(x) for x in w.values())
+            w = {a: round(x * target / g, 5) for a, x in w.items()}
+            cfg['cash'] = float(rng.choice([1e7, 5e7, 2.5e8]))
+            for s_ in syms:
+                mk.setdefault('level', {})[s_] = rng.uniform(2.0, 30.0)
         cfg['alpha'] = {'kind': 'fixed', 'weights': w}
     elif ak == 'single':
         cfg['alpha'] = {'kind': 'single', 'signal': rng.choice([1.0, 0.5, 2.0] if cfg['long_only'] else [1.0, -1.0, 0.5])}
@@ -842,7 +875,11 @@ def gen_cfg(rng, alpha_kinds=('fixed',), universe_kinds=('static',), max_days=25
         cfg['long_only'] = False
         cfg.setdefault('leverage', 1.0)
         cfg.pop('buffer', None)
-    elif ak == 'sma_trend':
+    if ak in ('topn_mom', 'mom_sign', 'sma_trend', 'inv_vol') and signal_universes and rng.random() < 0.3:
+        pass_sig = True
+    else:
+        pass_sig = False
+    if ak == 'sma_trend':
         fast = rng.choice([1, 2, 3, 5])
         cfg['alpha'] = {'kind': 'sma_trend', 'fast': fast, 'slow': fast + rng.choice([1, 3, 8, 15])}
     elif ak == 'inv_vol':
@@ -852,6 +889,8 @@ def gen_cfg(rng, alpha_kinds=('fixed',), universe_kinds=('static',), max_days=25
         cfg['long_only'] = True
         cfg.setdefault('buffer', 0.05)
         cfg.pop('leverage', None)
+    if pass_sig:
+        cfg['alpha']['signal_universe'] = 'static_all'
     return cfg
 
 
